@@ -1,5 +1,7 @@
 import RsslVerif.Model.Compile
 import RsslVerif.Model.PipelineTyper
+import RsslVerif.Model.PipelineNames
+import RsslVerif.Gen.Reserved
 import RsslVerif.Driver.Util
 /-! Line-protocol front end of the C17 models (pipeline selection loop, type checker's pipeline processing). -/
 namespace RsslVerif.Driver.C17
@@ -198,21 +200,47 @@ def showTyper : Except (String × Err) TState → String
     | .stringNotUsable => "err:other:error: string may not be used"
     | k => "err:" ++ kindName k ++ "@" ++ n ++ "." ++ toString e.path
 
-/-- The name the HLSL exporter prints for an entry function (a thin mirror of `NameMap::build`, which is C15's subject):
-    a function that shares its name with other non-template functions of the same scope is printed as `name_k`,
-    k = its position among them; otherwise the name is kept (the generated names are not reserved words). -/
-def hlslEntryName (reg : List FnDecl) (i : Nat) : String :=
-  match reg[i]? with
-  | none => "?"
-  | some f =>
-    let scope (g : FnDecl) : String := (g.shape.drop 1).toString
-    let group := (reg.zipIdx.filter fun p => p.1.name == f.name && !p.1.isTemplate && scope p.1 == scope f).map (·.2)
-    if group.length ≤ 1 then f.name
-    else f.name ++ "_" ++ toString (group.idxOf i)
+/-- the symbols of a wide program that are not functions, in the order `NameMap::build` pushes them
+    (harness/src/c17/wgen.rs: `PREAMBLE`, `render_res`, `render_func`): the namespace `ns1` when an active item is
+    written inside it, the preamble's structs and the struct around every method, the preamble's globals, every
+    resource that is a global variable (a cbuffer block is not one) and the statics -/
+def othersOf (on : Bool) (prog : String) : RsslVerif.Model.PipelineNames.Others :=
+  let items := (prog.splitOn " | ").map fun s => (s.splitOn " ").filter (· ≠ "")
+  let fnFlags (sf : String) : String := (sf.drop 1).toString
+  let hasNs := items.any fun it =>
+    match it with
+    | "F" :: _ :: sf :: _ => activeFlags on (fnFlags sf) && hasFlag (fnFlags sf) 'N'
+    | "P" :: _ :: flags :: _ => activeFlags on flags && hasFlag flags 'N'
+    | _ => false
+  let methodStructs : List (Option Nat × String) := items.filterMap fun it =>
+    match it with
+    | "F" :: name :: sf :: _ =>
+      if activeFlags on (fnFlags sf) && hasFlag (fnFlags sf) 'M' then
+        some (if hasFlag (fnFlags sf) 'N' then some 0 else none, "S_" ++ name)
+      else none
+    | _ => none
+  let globals : List (Option Nat × String) := items.filterMap fun it =>
+    match it with
+    | "R" :: name :: kind :: _ => if kind == "cbuffer" then none else some (none, name)
+    | ["S", k] => some (none, "s_value" ++ k)
+    | _ => none
+  { nss := if hasNs then [(none, "ns1")] else [],
+    structs := [(none, "CbS"), (none, "MeshVertex"), (none, "TaskPayload"), (none, "MeshPrim"), (none, "LayoutTrap")] ++
+      methodStructs,
+    globals := [(none, "K_ONE"), (none, "lds_payload")] ++ globals }
 
-def showWideOut (msl : Bool) (reg : List FnDecl) (p : IrPipe) : String :=
+/-- The name the HLSL exporter reports for an entry function: the leaf name the name map (`Model/Names.lean`, C15's
+    model of `NameMap::build`, with the HLSL reserved words re-extracted into `Gen/Reserved.lean`) gives the function
+    in the map of the **whole module** - an overload, a method or any other symbol of the same name and namespace,
+    before or after the Pipeline block, makes it `name_k`. -/
+def hlslEntryName (o : RsslVerif.Model.PipelineNames.Others) (reg : List FnDecl) (i : Nat) : String :=
+  match RsslVerif.Model.PipelineNames.entryName RsslVerif.Gen.Reserved.hlsl o reg i with
+  | .ok n => n
+  | .error e => "?" ++ e
+
+def showWideOut (msl : Bool) (o : RsslVerif.Model.PipelineNames.Others) (reg : List FnDecl) (p : IrPipe) : String :=
   "[" ++ ",".intercalate (p.stages.map fun s =>
-      s.stage.name ++ "(" ++ (if msl then mslEntryName s.stage else hlslEntryName reg s.entry) ++ ")@" ++ showTgs s.tgs) ++
+      s.stage.name ++ "(" ++ (if msl then mslEntryName s.stage else hlslEntryName o reg s.entry) ++ ")@" ++ showTgs s.tgs) ++
     "|" ++ showState p.state ++ "]"
 
 def handle (op : String) (args : List String) : String :=
@@ -259,10 +287,11 @@ def handle (op : String) (args : List String) : String :=
         if optl.contains "vl" && hasLayoutTrap prog then "err:front" else
         let msl := tgt == "msl"
         let failing := if fails == "-" then [] else fails.splitOn ","
+        let others := othersOf (opts.startsWith "on") prog
         let ps : List (Pipeline IrPipe) := s.pipes.map fun p => { name := p.name, payload := p }
         let build : Option (Pipeline IrPipe) → Except Unit String :=
           fun p => match p with
-            | some p => if failing.contains p.name then .error () else .ok (showWideOut msl s.reg p.payload)
+            | some p => if failing.contains p.name then .error () else .ok (showWideOut msl others s.reg p.payload)
             | none => if bare == "bare=ok" then .ok "[|-]" else .error ()
         match compileLoop build ps m with
         | .ok outs => "ok:" ++ String.join outs
